@@ -65,6 +65,9 @@ structure Law (s : Sem E V T) (cov : T → V → V → Prop) : Prop where
   /-- a tree none of whose children is `true` or marks the key field leaves indexes and keys as they were -/
   keys_stable : ∀ key L l0 l1, cov L l0 l1 → s.isAll L = false → s.isNone L = false → s.anyMarked key L = false →
     (s.items l0).map (fun p => (s.rawKey key p.1, p.2)) = (s.items l1).map (fun p => (s.rawKey key p.1, p.2))
+  /-- the tree handed to a sub-template covers the change of its data object -/
+  mk_cov : ∀ (fs : List (String × E)) D0 D1 sc0 sc1 U su, cov U D0 D1 → CovL cov su sc0 sc1 →
+    cov (s.mkTree U (fs.map fun a => (a.1, s.treeOf a.2 U su))) (s.mkObj (evalAttrs s D0 sc0 fs)) (s.mkObj (evalAttrs s D1 sc1 fs))
 
 /-! ## creation renders -/
 
@@ -81,6 +84,7 @@ theorem create_renders (s : Sem E V T) (now : Nat) (D : V) (sc : List V) : ∀ t
   | .cond bs => ⟨rfl, createBr_renders s now D sc bs _ 1⟩
   | .loop _ body => mkItems_renders now _ (fun a x => createL_renders s now D (sc ++ [a, x]) body) _
   | .loopK _ _ body => ⟨rfl, mkItems_renders now _ (fun a x => createL_renders s now D (sc ++ [a, x]) body) _⟩
+  | .tref _ _ cases => ⟨rfl, createT_renders s now _ cases _⟩
 theorem createL_renders (s : Sem E V T) (now : Nat) (D : V) (sc : List V) : ∀ ts : Tpls E, rendersL s D sc ts (createL s now D sc ts)
   | .nil => trivial
   | .cons t r => ⟨create_renders s now D sc t, createL_renders s now D sc r⟩
@@ -96,6 +100,14 @@ theorem createBr_renders (s : Sem E V T) (now : Nat) (D : V) (sc : List V) : ∀
     split
     · exact createL_renders s now D sc body
     · exact createBr_renders s now D sc r k (i + 1)
+theorem createT_renders (s : Sem E V T) (now : Nat) (D : V) : ∀ (cs : TCases E) (sel : Option String),
+    rendersT s D cs sel (createT s now D cs sel)
+  | .nil, _ => rfl
+  | .cons name body r, sel => by
+    simp only [rendersT, createT]
+    split
+    · exact createL_renders s now D [] body
+    · exact createT_renders s now D r sel
 end
 
 /-! ## update renders -/
@@ -366,18 +378,30 @@ theorem update_renders (s : Sem E V T) {cov : T → V → V → Prop} (law : Law
       exact keyed_renders s law now key (s.treeOf l U su) _ _ hL (by simpa using hnone) oraw oitems hraw _ _
         (fun a x nch => rendersL s D0 (sc0 ++ [a, x]) body nch) (fun a x nch => rendersL s D1 (sc1 ++ [a, x]) body nch) hupd hmk hits
   -- a node of another kind does not render the template
+  | .tref is fields cases, .tnode b k och, sc0, sc1, su, hsu, h => by
+    obtain ⟨hk, hch⟩ := h
+    simp only [update]
+    split
+    · rename_i hs
+      have hkk : s.eval is D1 sc1 = k := law.same_eq _ _ hs
+      refine ⟨hkk.symm, ?_⟩
+      rw [hkk]
+      exact update_rendersT s law now _ _ _ (law.mk_cov fields D0 D1 sc0 sc1 U su hU hsu) cases (selOf s k) och hch
+    · exact ⟨rfl, createT_renders s now _ cases _⟩
   | .text _, .elem .., _, _, _, _, h | .text _, .virt .., _, _, _, _, h | .text _, .ifn .., _, _, _, _, h
-  | .text _, .forn .., _, _, _, _, h | .text _, .fornK .., _, _, _, _, h => by simp [renders] at h
+  | .text _, .forn .., _, _, _, _, h | .text _, .fornK .., _, _, _, _, h | .text _, .tnode .., _, _, _, _, h => by simp [renders] at h
   | .elem .., .text .., _, _, _, _, h | .elem .., .virt .., _, _, _, _, h | .elem .., .ifn .., _, _, _, _, h
-  | .elem .., .forn .., _, _, _, _, h | .elem .., .fornK .., _, _, _, _, h => by simp [renders] at h
+  | .elem .., .forn .., _, _, _, _, h | .elem .., .fornK .., _, _, _, _, h | .elem .., .tnode .., _, _, _, _, h => by simp [renders] at h
   | .block _ _, .text .., _, _, _, _, h | .block _ _, .elem .., _, _, _, _, h | .block _ _, .ifn .., _, _, _, _, h
-  | .block _ _, .forn .., _, _, _, _, h | .block _ _, .fornK .., _, _, _, _, h => by simp [renders] at h
+  | .block _ _, .forn .., _, _, _, _, h | .block _ _, .fornK .., _, _, _, _, h | .block _ _, .tnode .., _, _, _, _, h => by simp [renders] at h
   | .cond _, .text .., _, _, _, _, h | .cond _, .elem .., _, _, _, _, h | .cond _, .virt .., _, _, _, _, h
-  | .cond _, .forn .., _, _, _, _, h | .cond _, .fornK .., _, _, _, _, h => by simp [renders] at h
+  | .cond _, .forn .., _, _, _, _, h | .cond _, .fornK .., _, _, _, _, h | .cond _, .tnode .., _, _, _, _, h => by simp [renders] at h
   | .loop .., .text .., _, _, _, _, h | .loop .., .elem .., _, _, _, _, h | .loop .., .virt .., _, _, _, _, h
-  | .loop .., .ifn .., _, _, _, _, h | .loop .., .fornK .., _, _, _, _, h => by simp [renders] at h
+  | .loop .., .ifn .., _, _, _, _, h | .loop .., .fornK .., _, _, _, _, h | .loop .., .tnode .., _, _, _, _, h => by simp [renders] at h
   | .loopK .., .text .., _, _, _, _, h | .loopK .., .elem .., _, _, _, _, h | .loopK .., .virt .., _, _, _, _, h
-  | .loopK .., .ifn .., _, _, _, _, h | .loopK .., .forn .., _, _, _, _, h => by simp [renders] at h
+  | .loopK .., .ifn .., _, _, _, _, h | .loopK .., .forn .., _, _, _, _, h | .loopK .., .tnode .., _, _, _, _, h => by simp [renders] at h
+  | .tref .., .text .., _, _, _, _, h | .tref .., .elem .., _, _, _, _, h | .tref .., .virt .., _, _, _, _, h
+  | .tref .., .ifn .., _, _, _, _, h | .tref .., .forn .., _, _, _, _, h | .tref .., .fornK .., _, _, _, _, h => by simp [renders] at h
 theorem update_rendersL (s : Sem E V T) {cov : T → V → V → Prop} (law : Law s cov) (now : Nat) (D0 D1 : V) (U : T) (hU : cov U D0 D1) :
     ∀ (ts : Tpls E) (ns : Nodes V) (sc0 sc1 : List V) (su : List T), CovL cov su sc0 sc1 →
       rendersL s D0 sc0 ts ns → rendersL s D1 sc1 ts (updateL s now D1 sc1 U su ts ns)
@@ -407,6 +431,19 @@ theorem update_rendersBr (s : Sem E V T) {cov : T → V → V → Prop} (law : L
     · rename_i hc
       simp only [hc, if_false] at h
       exact update_rendersBr s law now D0 D1 U hU r k (i + 1) och sc0 sc1 su hsu h
+theorem update_rendersT (s : Sem E V T) {cov : T → V → V → Prop} (law : Law s cov) (now : Nat) (D0 D1 : V) (U : T) (hU : cov U D0 D1) :
+    ∀ (cs : TCases E) (sel : Option String) (och : Nodes V), rendersT s D0 cs sel och → rendersT s D1 cs sel (updateT s now D1 U cs sel och)
+  | .nil, _, _, _ => rfl
+  | .cons name body r, sel, och, h => by
+    simp only [rendersT] at h
+    simp only [rendersT, updateT]
+    split
+    · rename_i hc
+      simp only [hc, if_true] at h
+      exact update_rendersL s law now D0 D1 U hU body och [] [] [] trivial h
+    · rename_i hc
+      simp only [hc, if_false] at h
+      exact update_rendersT s law now D0 D1 U hU r sel och h
 end
 
 
@@ -440,18 +477,24 @@ theorem renders_shape (s : Sem E V T) (D : V) : ∀ (t : Tpl E) (n : Node V) (sc
     obtain ⟨h1, h2⟩ := h
     simp only [create, Node.shape, h1]
     rw [rendersItems_shape (fun a x nch hp => rendersL_shape s D body nch (sc ++ [a, x]) hp) _ items h2]
-  | .text _, .elem .., _, h | .text _, .virt .., _, h | .text _, .ifn .., _, h | .text _, .forn .., _, h
-  | .text _, .fornK .., _, h => by simp [renders] at h
-  | .elem .., .text .., _, h | .elem .., .virt .., _, h | .elem .., .ifn .., _, h | .elem .., .forn .., _, h
-  | .elem .., .fornK .., _, h => by simp [renders] at h
-  | .block _ _, .text .., _, h | .block _ _, .elem .., _, h | .block _ _, .ifn .., _, h | .block _ _, .forn .., _, h
-  | .block _ _, .fornK .., _, h => by simp [renders] at h
-  | .cond _, .text .., _, h | .cond _, .elem .., _, h | .cond _, .virt .., _, h | .cond _, .forn .., _, h
-  | .cond _, .fornK .., _, h => by simp [renders] at h
-  | .loop .., .text .., _, h | .loop .., .elem .., _, h | .loop .., .virt .., _, h | .loop .., .ifn .., _, h
-  | .loop .., .fornK .., _, h => by simp [renders] at h
-  | .loopK .., .text .., _, h | .loopK .., .elem .., _, h | .loopK .., .virt .., _, h | .loopK .., .ifn .., _, h
-  | .loopK .., .forn .., _, h => by simp [renders] at h
+  | .tref is fields cases, .tnode b k nch, sc, h => by
+    obtain ⟨h1, h2⟩ := h
+    simp only [create, Node.shape, h1]
+    rw [rendersT_shape s _ cases _ nch (h1 ▸ h2)]
+  | .text _, .elem .., _, h | .text _, .virt .., _, h | .text _, .ifn .., _, h
+  | .text _, .forn .., _, h | .text _, .fornK .., _, h | .text _, .tnode .., _, h => by simp [renders] at h
+  | .elem .., .text .., _, h | .elem .., .virt .., _, h | .elem .., .ifn .., _, h
+  | .elem .., .forn .., _, h | .elem .., .fornK .., _, h | .elem .., .tnode .., _, h => by simp [renders] at h
+  | .block _ _, .text .., _, h | .block _ _, .elem .., _, h | .block _ _, .ifn .., _, h
+  | .block _ _, .forn .., _, h | .block _ _, .fornK .., _, h | .block _ _, .tnode .., _, h => by simp [renders] at h
+  | .cond _, .text .., _, h | .cond _, .elem .., _, h | .cond _, .virt .., _, h
+  | .cond _, .forn .., _, h | .cond _, .fornK .., _, h | .cond _, .tnode .., _, h => by simp [renders] at h
+  | .loop .., .text .., _, h | .loop .., .elem .., _, h | .loop .., .virt .., _, h
+  | .loop .., .ifn .., _, h | .loop .., .fornK .., _, h | .loop .., .tnode .., _, h => by simp [renders] at h
+  | .loopK .., .text .., _, h | .loopK .., .elem .., _, h | .loopK .., .virt .., _, h
+  | .loopK .., .ifn .., _, h | .loopK .., .forn .., _, h | .loopK .., .tnode .., _, h => by simp [renders] at h
+  | .tref .., .text .., _, h | .tref .., .elem .., _, h | .tref .., .virt .., _, h
+  | .tref .., .ifn .., _, h | .tref .., .forn .., _, h | .tref .., .fornK .., _, h => by simp [renders] at h
 theorem rendersL_shape (s : Sem E V T) (D : V) : ∀ (ts : Tpls E) (ns : Nodes V) (sc : List V), rendersL s D sc ts ns →
     ns.shape = (createL s 0 D sc ts).shape
   | .nil, .nil, _, _ => rfl
@@ -482,6 +525,19 @@ theorem rendersBr_shape (s : Sem E V T) (D : V) : ∀ (bs : Branches E) (k i : N
     · rename_i hc
       simp only [hc] at h
       exact rendersBr_shape s D r k (i + 1) nch sc (by simpa using h)
+theorem rendersT_shape (s : Sem E V T) (D : V) : ∀ (cs : TCases E) (sel : Option String) (nch : Nodes V), rendersT s D cs sel nch →
+    nch.shape = (createT s 0 D cs sel).shape
+  | .nil, _, nch, h => by simp only [rendersT] at h; rw [h]; rfl
+  | .cons name body r, sel, nch, h => by
+    simp only [rendersT] at h
+    simp only [createT]
+    split
+    · rename_i hc
+      simp only [hc, if_true] at h
+      exact rendersL_shape s D body nch [] h
+    · rename_i hc
+      simp only [hc, if_false] at h
+      exact rendersT_shape s D r sel nch h
 end
 
 /-! ## the property -/
@@ -539,6 +595,9 @@ def toySem : Sem Bool Nat Bool where
   keyMarks := fun _ t => t
   anyMarked := fun _ t => t
   reads := fun e _ => e
+  keyStr := fun v => if v == 0 then "z" else "t"
+  mkObj := fun l => (l.map (·.2)).sum
+  mkTree := fun U _ => U
 
 def toyCov (t : Bool) (a b : Nat) : Prop := t = true ∨ a = b
 
@@ -597,6 +656,12 @@ theorem toyLaw : Law toySem toyCov where
   keys_stable := by
     intro key L l0 l1 _ h1 h2 _
     cases L <;> simp [toySem] at h1 h2
+  mk_cov := by
+    intro fs D0 D1 sc0 sc1 U su hU _
+    rcases hU with h | h
+    · exact Or.inl (by simp [toySem, h])
+    · subst h
+      exact Or.inr (by simp [toySem, evalAttrs])
 
 /-- `<view wx:if="{{d}}">{{d}}</view><block wx:for="{{d}}">x</block>`: 2 → 3 keeps the branch (its text is rewritten in place) and grows the list -/
 example :
